@@ -150,8 +150,15 @@ def _format_productions(productions):
 
 def _normalize_literal_patterns(literals):
     """Normalizes a list of strings to a list of (regex, symbol) pairs."""
+    # Each literal is shown as a regex that matches exactly that literal.  As in
+    # _normalize_regex_patterns, '|' additionally needs a '\' for the Markdown
+    # table: without it the row for "||" renders as the regex `||`.
     return [
-        (re.sub(r"(\W)", r"\\\1", literal), '"' + literal + '"') for literal in literals
+        (
+            re.sub(r"\|", r"\\|", re.sub(r"(\W)", r"\\\1", literal)),
+            '"' + literal + '"',
+        )
+        for literal in literals
     ]
 
 
